@@ -137,7 +137,7 @@ def build():
     ])
     U.impl('impl KeyObjectSet', [
         U.fn(PUB, 'KeyObjectSet', 'reissue',
-             closures={0: {'header': '|m: BuiltManifest| -> (o: PublishedManifest)', 'ensures': 'o == m.0'}},
+             closures={'|m|': {'header': '|m: BuiltManifest| -> (o: PublishedManifest)', 'ensures': 'o == m.0'}},
              requires=[('km', km), ('no_overflow', 'old(self).revision.number < u64::MAX')],
              ensures=[
                  ('number_plus_one', 'r is Ok ==> final(self).revision.number == old(self).revision.number + 1'),
